@@ -34,10 +34,17 @@ Open Scope N_scope.
    * fix_vote_term  — `vote_request` adopts the request's term when it grants the vote (`self.term = request.term`);
    * fix_vote_match — `response()` counts a Vote/Ok answer only if it answers a request of the candidate's current
      term (`(Candidate, Vote, OK) if request.term == self.term`).
-   `rr_pinned` = raft.rs before the two repairs (the `_refuted` witnesses of C27 are about it), `rr_fixed` = after. *)
-Record raftrev := mkRev { fix_vote_term : bool; fix_vote_match : bool }.
-Definition rr_fixed : raftrev := mkRev true true.
-Definition rr_pinned : raftrev := mkRev false false.
+   * fix_ack_term   — a leader counts only acknowledgements of its current term (fixes/C28-count-only-current-term-acks.diff):
+     `vote_received` clears `log_index/log_term/log_commit` of every other row of the peer table when the node becomes
+     Leader, and `response()` passes an Append/Heartbeat Ok answer to `commit()` only if it answers a request of the
+     leader's current term (`(Leader, Heartbeat | Append(_), OK) if request.term == self.term`).
+   `rr_pinned` = raft.rs before all repairs (the `_refuted` witnesses of C27 are about it),
+   `rr_before_ack_fix` = both election repairs, not the acknowledgement repair (the `commit-without-quorum` witnesses of
+   C28c / C29 are about it), `rr_fixed` = all three repairs. *)
+Record raftrev := mkRev { fix_vote_term : bool; fix_vote_match : bool; fix_ack_term : bool }.
+Definition rr_fixed : raftrev := mkRev true true true.
+Definition rr_before_ack_fix : raftrev := mkRev true true false.
+Definition rr_pinned : raftrev := mkRev false false false.
 
 (* ------------------------------------------------------------------ data *)
 
@@ -350,11 +357,20 @@ Definition pre_vote_received (nd : node) (r : request) : node * list request :=
   let nd1 := upd_peer nd (q_to r) (p_set_voted true) in
   if n_size nd1 / 2 <? votes nd1 then election nd1 else (nd1, []).
 
-Definition vote_received (nd : node) (r : request) : node * list request :=
+(* `.filter(|node| self.index != node.index).for_each(|node| { node.log_index = 0; node.log_term = 0; node.log_commit = 0 })` *)
+Fixpoint reset_from (k self : N) (ps : list peer) : list peer :=
+  match ps with
+  | [] => []
+  | p :: r => (if k =? self then p else p_set_all 0 0 0 p) :: reset_from (k + 1) self r
+  end.
+Definition reset_rows (nd : node) : node := set_peers nd (reset_from 0 (n_index nd) (n_peers nd)).
+
+Definition vote_received (rv : raftrev) (nd : node) (r : request) : node * list request :=
   let nd1 := upd_peer nd (q_to r) (p_set_voted true) in
   if n_size nd1 / 2 <? votes nd1 then
     let nd2 := set_term (set_state nd1 Leader) (q_term r) in
-    (nd2, heartbeat_no_timer nd2)
+    let nd3 := if fix_ack_term rv then reset_rows nd2 else nd2 in
+    (nd3, heartbeat_no_timer nd3)
   else (nd1, []).
 
 Definition commit (nd : node) (r : request) : node * list request :=
@@ -374,11 +390,15 @@ Definition is_append_or_hb (k : rkind) : bool :=
 Definition vote_counts (rv : raftrev) (nd : node) (r : request) : bool :=
   negb (fix_vote_match rv) || (q_term r =? n_term nd).
 
+(* does the leader count this Append/Heartbeat Ok answer?  (the guard of the `(Leader, Heartbeat | Append(_), OK)` arm) *)
+Definition ack_counts (rv : raftrev) (nd : node) (r : request) : bool :=
+  (q_term r =? n_term nd) || negb (fix_ack_term rv).
+
 Definition handle_response (rv : raftrev) (nd : node) (r : request) (s : response) : node * list request :=
   match n_state nd, q_kind r, s_result s with
   | Election, KPreVote, ROk => pre_vote_received nd r
-  | Candidate, KVote, ROk => if vote_counts rv nd r then vote_received nd r else (nd, [])
-  | Leader, (KHeartbeat | KAppend _), ROk => commit nd r
+  | Candidate, KVote, ROk => if vote_counts rv nd r then vote_received rv nd r else (nd, [])
+  | Leader, (KHeartbeat | KAppend _), ROk => if ack_counts rv nd r then commit nd r else (nd, [])
   | Leader, (KHeartbeat | KAppend _), RLogMismatch _ _ _ _ cl _ => reconcile nd r cl
   | _, _, RTermMismatch l _ =>
       if n_term nd <? l then (set_et (set_state (set_term nd l) Election) (n_first nd), [])
